@@ -31,6 +31,7 @@ package repository
 
 import (
 	"context"
+	"encoding/json"
 	"fmt"
 	"os"
 	"sort"
@@ -51,7 +52,9 @@ import (
 // scenarios
 
 type c12Step struct {
-	Op   string        // acq | hold | rel | crash | unlock | sleep
+	// acq | work (one backend operation while holding: a scheduling point inside the hold
+	// interval) | hold (timed) | rel | crash | unlock (RemoveStaleLocks) | sleep
+	Op   string
 	Excl bool          `json:",omitempty"`
 	D    time.Duration `json:",omitempty"` // hold / sleep duration, acq: retryLock
 	// Low: acquire with newLock / release with lockHandle.unlock (one attempt, no refresh
@@ -74,6 +77,18 @@ type c12Scenario struct {
 	Lag      time.Duration
 	Fab      []c12Fab
 	MaxStall time.Duration
+	V2       bool // repository format 2 (lock files zstd-compressed); default format 1
+	Newest   bool // listings deliver the newest file first (default: oldest first)
+	// StallTs bounds how often "let time pass" may be chosen while operations are waiting
+	// (i.e. how many operations are stalled deliberately) in one schedule; 0 = unbounded.
+	// Time always passes when nothing else can run.
+	StallTs int
+	// Free: no scheduling at all — the processes run truly in parallel (Connections = 4, yield
+	// perturbation in the backend) on the virtual clock; this is what gives the race detector
+	// real concurrency between the goroutines of the lock code. Stamps of the event log are then
+	// conservative (acquired is noted after Lock returned, releasing before Unlock is called),
+	// so every overlap found is a real one.
+	Free bool
 }
 
 func (sc c12Scenario) String() string {
@@ -91,6 +106,15 @@ func (sc c12Scenario) String() string {
 	}
 	if sc.Lag > 0 {
 		fmt.Fprintf(&sb, " lag=%v", sc.Lag)
+	}
+	if sc.V2 {
+		sb.WriteString(" v2")
+	}
+	if sc.Newest {
+		sb.WriteString(" list-newest-first")
+	}
+	if sc.Free {
+		sb.WriteString(" free-running")
 	}
 	for _, f := range sc.Fab {
 		fmt.Fprintf(&sb, " fab(age=%v,dead=%v,x=%v)", f.Age, f.DeadPID, f.Excl)
@@ -120,7 +144,7 @@ func c12Lock(x bool, retry time.Duration) c12Step { return c12Step{Op: "acq", Ex
 func c12Hold(d time.Duration) c12Step             { return c12Step{Op: "hold", D: d} }
 func c12Sleep(d time.Duration) c12Step            { return c12Step{Op: "sleep", D: d} }
 func c12Do(op string) c12Step                     { return c12Step{Op: op} }
-func c12AR(x bool) []c12Step                      { return []c12Step{c12Acq(x), c12Do("rel")} }
+func c12AR(x bool) []c12Step                      { return []c12Step{c12Acq(x), c12Do("work"), c12Do("rel")} }
 func c12Seq(steps ...c12Step) []c12Step           { return steps }
 func c12Mode(x bool) string                       { return map[bool]string{true: "X", false: "S"}[x] }
 func c12Cat(a ...[]c12Step) (r []c12Step) {
@@ -148,13 +172,17 @@ func c12Exhaustive(thorough bool) []c12Scenario {
 		}
 	}
 	// (b) a holder whose lock is refreshed by the real refresh goroutine (tick at 5 min) while a second
-	// process arrives around the refresh
+	// process arrives around the refresh. retryLock = 1ns: when the holder-to-be loses against the
+	// second process (only possible after it was stalled, i.e. later than its start time) the
+	// retry loop of locker.Lock makes exactly one more attempt — deterministically, unlike
+	// retryLock = 0 (see c12Step.Low)
 	for _, a := range bools {
 		for _, b := range bools {
-			for _, off := range []time.Duration{299900 * time.Millisecond, 5 * time.Minute} {
+			for i, off := range []time.Duration{299900 * time.Millisecond, 5 * time.Minute, 299900 * time.Millisecond, 5 * time.Minute} {
 				out = append(out, c12Scenario{
-					Name:    fmt.Sprintf("refresh-%s%s-off%d", c12Mode(a), c12Mode(b), off/time.Millisecond),
-					Scripts: [][]c12Step{c12Seq(c12Lock(a, 7*time.Second), c12Hold(5*time.Minute+time.Second), c12Do("rel")), c12Seq(c12Sleep(off), c12Lock(b, 7*time.Second), c12Do("rel"))},
+					Name: fmt.Sprintf("refresh-%s%s-off%d-newest%v", c12Mode(a), c12Mode(b), off/time.Millisecond, i >= 2), Newest: i >= 2,
+					StallTs: 2,
+					Scripts: [][]c12Step{c12Seq(c12Lock(a, 1), c12Hold(5*time.Minute+time.Second), c12Do("rel")), c12Cat(c12Seq(c12Sleep(off)), c12AR(b))},
 				})
 			}
 		}
@@ -166,7 +194,7 @@ func c12Exhaustive(thorough bool) []c12Scenario {
 			out = append(out, c12Scenario{
 				Name:    fmt.Sprintf("unlock-%s-dead%v", c12Mode(a), dead),
 				Fab:     []c12Fab{{Age: map[bool]time.Duration{true: time.Minute, false: time.Hour}[dead], DeadPID: dead, Excl: true}},
-				Scripts: [][]c12Step{c12Seq(c12Do("unlock"), c12Acq(a), c12Do("unlock"), c12Do("rel")), c12Seq(c12Do("unlock"), c12Acq(true), c12Do("rel"))},
+				Scripts: [][]c12Step{c12Seq(c12Do("unlock"), c12Acq(a), c12Do("unlock"), c12Do("rel")), c12Seq(c12Do("unlock"), c12Acq(true), c12Do("work"), c12Do("rel"))},
 			})
 		}
 	}
@@ -195,7 +223,7 @@ func c12Exhaustive(thorough bool) []c12Scenario {
 func c12Random(rng *kit.RNG, idx int) c12Scenario {
 	holds := []time.Duration{0, time.Second, 4*time.Minute + 59*time.Second, 5*time.Minute + time.Second, 11 * time.Minute, 31 * time.Minute}
 	sleeps := []time.Duration{0, 100 * time.Millisecond, 200 * time.Millisecond, time.Second, 5 * time.Minute, 29 * time.Minute, 31 * time.Minute}
-	sc := c12Scenario{Name: fmt.Sprintf("random-%d", idx)}
+	sc := c12Scenario{Name: fmt.Sprintf("random-%d", idx), V2: idx%2 == 1, Newest: rng.Bool()}
 	if rng.Chance(1, 3) {
 		sc.Lag = kit.Pick(rng, []time.Duration{20 * time.Millisecond, 150 * time.Millisecond, 190 * time.Millisecond})
 	}
@@ -222,8 +250,14 @@ func c12Random(rng *kit.RNG, idx int) c12Scenario {
 				acq = c12Acq(acq.Excl)
 			}
 			s = append(s, acq)
+			if rng.Chance(1, 3) {
+				s = append(s, c12Do("work"))
+			}
 			if rng.Chance(2, 3) {
 				s = append(s, c12Hold(kit.Pick(rng, holds)))
+			}
+			if rng.Chance(1, 4) {
+				s = append(s, c12Do("work"))
 			}
 			if rng.Chance(1, 6) {
 				s = append(s, c12Do("crash"))
@@ -259,25 +293,72 @@ type c12Run struct {
 	Virtual  time.Duration
 	MonViol  []string
 	LockLeft int
+	// timestamp inside every lock file saved during the run (decoded from the journal)
+	LockTimes map[string]time.Time
 }
 
+// c12Base is an initialised repository (format version 1 or 2) that every run starts from.
+// Emulated processes get their own Repository object on their own backend view; key and config
+// are copied instead of running the KDF again, and for format 2 the zstd encoder/decoder objects
+// (safe for concurrent use, large to allocate under the race detector) are shared.
 type c12Base struct {
 	state kit.State
 	repo  *Repository // holds key and config
 }
 
-func c12NewBase(t *testing.T) *c12Base {
+func c12NewBase(t *testing.T, version uint) *c12Base {
 	be := kit.NewVBackend(1, true)
-	repo, _ := TestRepositoryWithBackend(t, be, 0, Options{})
+	repo, _ := TestRepositoryWithBackend(t, be, version, Options{})
+	if version >= 2 {
+		// first use initialises internal channels: do it outside any synctest bubble
+		c := repo.getZstdEncoder().EncodeAll([]byte("warm up"), nil)
+		if _, err := repo.getZstdDecoder().DecodeAll(c, nil); err != nil {
+			t.Fatal(err)
+		}
+	}
 	return &c12Base{state: be.Snapshot(), repo: repo}
 }
 
+func (b *c12Base) decodeLock(raw []byte) (Lock, error) {
+	var l Lock
+	k := b.repo.key
+	if len(raw) < k.NonceSize() {
+		return l, fmt.Errorf("short")
+	}
+	pt, err := k.Open(nil, raw[:k.NonceSize()], raw[k.NonceSize():], nil)
+	if err != nil {
+		return l, err
+	}
+	if pt, err = b.repo.decompressUnpacked(pt); err != nil {
+		return l, err
+	}
+	return l, json.Unmarshal(pt, &l)
+}
+
+// c12Be is the backend a process sees: the scheduler view plus the FreezeBackend methods, which
+// only note the event (restic's sema backend blocks the non-lock operations of the process
+// while frozen; the lock oracles only need to know when the process was frozen).
+type c12Be struct {
+	*kit.SchedView
+	note func(string)
+}
+
+func (b *c12Be) Freeze()   { b.note("freeze") }
+func (b *c12Be) Unfreeze() { b.note("unfreeze") }
+
+var _ backend.FreezeBackend = &c12Be{}
+
 func (b *c12Base) open(be backend.Backend) *Repository {
-	r, err := New(be, Options{})
+	r, err := New(be, b.repo.opts)
 	if err != nil {
 		panic(err)
 	}
 	r.key, r.keyID, r.cfg = b.repo.key, b.repo.keyID, b.repo.cfg
+	if b.repo.enc != nil {
+		r.allocEnc.Do(func() {})
+		r.allocDec.Do(func() {})
+		r.enc, r.dec = b.repo.enc, b.repo.dec
+	}
 	return r
 }
 
@@ -293,13 +374,28 @@ type c12Proc struct {
 
 var c12RoleMarks = []kit.RoleMark{{Substr: "refreshLocks", Role: "refresh"}}
 
-func c12Execute(t *testing.T, base *c12Base, sc c12Scenario, choose c12Chooser) *c12Run {
+func c12Execute(t *testing.T, bases [2]*c12Base, sc c12Scenario, choose c12Chooser) *c12Run {
 	run := &c12Run{Sc: sc}
+	base := bases[0]
+	if sc.V2 {
+		base = bases[1]
+	}
+	if os.Getenv("C12_DEBUG") != "" {
+		fmt.Fprintf(os.Stderr, "exec %s\n", sc)
+	}
 	synctest.Test(t, func(t *testing.T) {
 		start := time.Now()
-		be := kit.NewVBackendFrom(base.state, 1, true)
+		conn := uint(1)
+		if sc.Free {
+			conn = 4
+		}
+		be := kit.NewVBackendFrom(base.state, conn, true)
 		be.Lag = sc.Lag
+		if sc.Free {
+			be.SetYield(20, kit.NewRNG(uint64(len(sc.Name)), sc.Name))
+		}
 		s := kit.NewSched(c12RoleMarks...)
+		s.ListNewestFirst = sc.Newest
 		master := base.open(be)
 		hn, _ := os.Hostname()
 		for _, f := range sc.Fab {
@@ -323,7 +419,7 @@ func c12Execute(t *testing.T, base *c12Base, sc c12Scenario, choose c12Chooser) 
 		for i, script := range sc.Scripts {
 			p := &c12Proc{id: i + 1, script: script}
 			p.view = s.View(be, p.id)
-			p.repo = base.open(p.view)
+			p.repo = base.open(&c12Be{SchedView: p.view, note: func(w string) { s.Note(p.id, w) }})
 			ctx, cancel := context.WithCancel(context.Background())
 			p.cancel = cancel
 			procs = append(procs, p)
@@ -333,8 +429,13 @@ func c12Execute(t *testing.T, base *c12Base, sc c12Scenario, choose c12Chooser) 
 				c12RunScript(ctx, s, p)
 			}()
 		}
+		if sc.Free {
+			s.Open()
+			wg.Wait()
+		}
 		// controller
-		for step := 0; ; step++ {
+		stallTs := 0
+		for step := 0; !sc.Free; step++ {
 			ops := s.Settle()
 			alldone := true
 			for _, p := range procs {
@@ -353,10 +454,11 @@ func c12Execute(t *testing.T, base *c12Base, sc c12Scenario, choose c12Chooser) 
 				break
 			}
 			var labels []string
-			mainPending := map[int]bool{}
+			mainPending, anyPending := map[int]bool{}, map[int]bool{}
 			var worst time.Duration
 			for _, op := range ops {
 				labels = append(labels, op.Label())
+				anyPending[op.Proc] = true
 				if op.Role == "main" {
 					mainPending[op.Proc] = true
 				}
@@ -364,11 +466,12 @@ func c12Execute(t *testing.T, base *c12Base, sc c12Scenario, choose c12Chooser) 
 					worst = d
 				}
 			}
-			// T: some main thread is neither done nor at the scheduler nor waiting for its own
-			// refresh goroutine ⇒ it is in a timed wait; letting time pass is a real alternative
+			// T: some main thread is neither done nor at the scheduler nor waiting (in Unlock) for
+			// its refresh goroutine that is at the scheduler ⇒ the process is in a timed wait;
+			// letting time pass is a real alternative
 			timeBlocked := false
 			for _, p := range procs {
-				if !p.done.Load() && !mainPending[p.id] && !p.inUnlock.Load() {
+				if !p.done.Load() && !mainPending[p.id] && !(p.inUnlock.Load() && anyPending[p.id]) {
 					timeBlocked = true
 				}
 			}
@@ -376,7 +479,7 @@ func c12Execute(t *testing.T, base *c12Base, sc c12Scenario, choose c12Chooser) 
 			if len(ops) == 0 {
 				budget = time.Hour
 			}
-			if timeBlocked && budget > 0 {
+			if timeBlocked && budget > 0 && (len(ops) == 0 || sc.StallTs == 0 || stallTs < sc.StallTs) {
 				labels = append(labels, "T")
 			}
 			if len(labels) == 0 {
@@ -384,12 +487,18 @@ func c12Execute(t *testing.T, base *c12Base, sc c12Scenario, choose c12Chooser) 
 				break
 			}
 			k := choose(step, labels)
+			if os.Getenv("C12_DEBUG") == "2" {
+				fmt.Fprintf(os.Stderr, "  step %d +%v options %v -> %d\n", step, time.Since(start), labels, k)
+			}
 			if k < 0 || k >= len(labels) {
 				run.Aborted = fmt.Sprintf("chooser aborted at step %d (options %v)", step, labels)
 				break
 			}
 			run.Trace = append(run.Trace, c12Choice{N: len(labels), Chosen: k, Label: labels[k]})
 			if labels[k] == "T" {
+				if len(ops) > 0 {
+					stallTs++
+				}
 				s.Advance(budget)
 			} else {
 				s.Release(ops[k])
@@ -398,12 +507,24 @@ func c12Execute(t *testing.T, base *c12Base, sc c12Scenario, choose c12Chooser) 
 		// end of the schedule: snapshot what the oracles need, then let everything drain
 		run.Log = s.Log()
 		run.Virtual = time.Since(start)
+		run.LockTimes = map[string]time.Time{}
+		for _, op := range be.Journal() {
+			if op.Kind == kit.OpSave && op.H.Type == backend.LockFile && op.Applied {
+				if l, err := base.decodeLock(op.Data); err == nil {
+					run.LockTimes[op.H.Name] = l.Time
+				}
+			}
+		}
 		run.LockLeft = len(be.Snapshot().Keys(backend.LockFile))
 		for _, p := range procs {
 			p.cancel()
 		}
 		s.Open()
 		wg.Wait()
+		// virtual time stops when this function returns: give goroutines of the lock code that
+		// are still in a timed wait (refresh of a crashed process, …) the time to finish
+		time.Sleep(5 * time.Minute)
+		synctest.Wait()
 		run.MonViol = be.MonitorViolations()
 	})
 	return run
@@ -438,8 +559,17 @@ func c12RunScript(ctx context.Context, s *kit.Sched, p *c12Proc) {
 					continue
 				}
 				s.Note(p.id, "acquired "+c12Mode(st.Excl))
-				lockCtx = ctx
+				// no refresh machinery in this mode: the holder gives up (as locker.Lock's monitor
+				// would at the latest) when its lock file reaches the refreshability deadline
+				lctx, lcancel := context.WithCancel(ctx)
+				tm := time.AfterFunc(time.Until(h.Time.Add(lockerInst.refreshabilityTimeout)), func() {
+					s.Note(p.id, "ctxdone")
+					lcancel()
+				})
+				lockCtx = lctx
 				unlock = func() {
+					tm.Stop()
+					lcancel()
 					if err := h.unlock(ctx); err != nil {
 						s.Note(p.id, "unlock-error "+c12Short(err.Error()))
 					}
@@ -473,6 +603,11 @@ func c12RunScript(ctx context.Context, s *kit.Sched, p *c12Proc) {
 			case <-lockCtx.Done():
 				t.Stop()
 			}
+		case "work":
+			if unlock == nil {
+				continue
+			}
+			_ = p.repo.List(lockCtx, restic.SnapshotFile, func(restic.ID, int64) error { return nil })
 		case "rel":
 			if unlock == nil {
 				continue
@@ -529,6 +664,7 @@ type c12HoldIv struct {
 	CallSeq    int
 	EndKind    string
 	RelRet     int
+	AcqAge     time.Duration // age of the holder's lock file (its timestamp) when Lock returned
 }
 
 type rwIn struct {
@@ -572,21 +708,30 @@ var c12Model = porcupine.Model{
 }
 
 type c12Stats struct {
-	holds, sharedOverlaps, acqOK, acqConflict, acqError, refreshes, staleRemoved, ops, switches, tChoices, ctxdone int64
+	holds, sharedOverlaps, acqOK, acqConflict, acqError, refreshes, staleRemoved, ops, switches, tChoices, ctxdone, freezes int64
+	maxAcqAge                                                                                                               time.Duration
 }
 
 const c12Inf = int(^uint(0) >> 1)
 
 // c12Judge evaluates O1–O3 on the log of one run. It returns violation (key, message) pairs.
+//
+// Hold interval of a process: from the note "acquired" to the first of "releasing", "crash",
+// "ctxdone" — and when the lock context is cancelled while the backend is frozen for a forced
+// refresh (tryRefreshStaleLock cancels before Unfreeze) the interval already ends at "freeze":
+// from that point the holder could not issue any modification.
 func c12Judge(run *c12Run, st *c12Stats) (viol [][2]string, unknown bool) {
 	log := run.Log
 	np := len(run.Sc.Scripts)
 	var holds []c12HoldIv
 	open := map[int]int{} // proc → index into holds of the open interval
 	lastCall := map[int]int{}
+	frozen := map[int]int{} // proc → seq of the pending "freeze"
+	lastLockSave := map[int]string{}
 	var hist []porcupine.Operation
 	owner := map[string]int{} // lock file name → creating process
 	lastProc := 0
+	// pass 1: hold intervals, history, counters
 	for _, e := range log {
 		if e.Kind != "" {
 			if !e.Gated {
@@ -597,27 +742,11 @@ func c12Judge(run *c12Run, st *c12Stats) (viol [][2]string, unknown bool) {
 				st.switches++
 			}
 			lastProc = e.Proc
-			if e.H.Type == backend.LockFile && e.Err == "" {
-				switch e.Kind {
-				case kit.OpSave:
-					owner[e.H.Name] = e.Proc
-					if e.Role == "refresh" {
-						st.refreshes++
-					}
-				case kit.OpRemove:
-					q, known := owner[e.H.Name]
-					if !known { // fabricated by the harness before the run
-						st.staleRemoved++
-						continue
-					}
-					if q != e.Proc {
-						if hi, ok := open[q]; ok {
-							viol = append(viol, [2]string{"live-lock-file-removed-by-other-process",
-								fmt.Sprintf("process %d removed lock file %s of process %d which holds a lock (since event %d) at event %d", e.Proc, e.H.Name[:10], q, holds[hi].Start, e.Seq)})
-						} else {
-							st.staleRemoved++
-						}
-					}
+			if e.H.Type == backend.LockFile && e.Err == "" && e.Kind == kit.OpSave {
+				owner[e.H.Name] = e.Proc
+				lastLockSave[e.Proc] = e.H.Name
+				if e.Role == "refresh" {
+					st.refreshes++
 				}
 			}
 			continue
@@ -636,18 +765,34 @@ func c12Judge(run *c12Run, st *c12Stats) (viol [][2]string, unknown bool) {
 		case "acquired":
 			st.acqOK++
 			st.holds++
-			holds = append(holds, c12HoldIv{Proc: e.Proc, Excl: f[1] == "X", Start: e.Seq, End: c12Inf, CallSeq: lastCall[e.Proc]})
+			h := c12HoldIv{Proc: e.Proc, Excl: f[1] == "X", Start: e.Seq, End: c12Inf, CallSeq: lastCall[e.Proc]}
+			if lt, ok := run.LockTimes[lastLockSave[e.Proc]]; ok {
+				h.AcqAge = e.At.Sub(lt)
+				if h.AcqAge > st.maxAcqAge {
+					st.maxAcqAge = h.AcqAge
+				}
+			}
+			holds = append(holds, h)
 			open[e.Proc] = len(holds) - 1
 			hist = append(hist, porcupine.Operation{ClientId: e.Proc - 1, Input: rwIn{Acq: true, Excl: f[1] == "X"}, Call: int64(lastCall[e.Proc]), Output: true, Return: int64(e.Seq)})
+		case "freeze":
+			frozen[e.Proc] = e.Seq
+			st.freezes++
+		case "unfreeze":
+			delete(frozen, e.Proc)
 		case "releasing", "ctxdone", "crash":
 			if hi, ok := open[e.Proc]; ok {
+				end := e.Seq
 				if f[0] == "ctxdone" {
 					st.ctxdone++
+					if fs, ok := frozen[e.Proc]; ok {
+						end = fs
+					}
 				}
-				holds[hi].End, holds[hi].EndKind = e.Seq, f[0]
+				holds[hi].End, holds[hi].EndKind = end, f[0]
 				delete(open, e.Proc)
 				if f[0] != "releasing" {
-					hist = append(hist, porcupine.Operation{ClientId: e.Proc - 1, Input: rwIn{Excl: holds[hi].Excl}, Call: int64(e.Seq), Output: true, Return: int64(e.Seq)})
+					hist = append(hist, porcupine.Operation{ClientId: e.Proc - 1, Input: rwIn{Excl: holds[hi].Excl}, Call: int64(end), Output: true, Return: int64(e.Seq)})
 				}
 			}
 		case "released":
@@ -668,10 +813,75 @@ func c12Judge(run *c12Run, st *c12Stats) (viol [][2]string, unknown bool) {
 			hist = append(hist, porcupine.Operation{ClientId: h.Proc - 1, Input: rwIn{Excl: h.Excl}, Call: int64(h.End), Output: true, Return: int64(len(log) + 1)})
 		}
 	}
+	holding := func(proc, seq int) *c12HoldIv {
+		for i := range holds {
+			if holds[i].Proc == proc && holds[i].Start < seq && seq < holds[i].End {
+				return &holds[i]
+			}
+		}
+		return nil
+	}
+	// A holder whose acquisition took longer than staleLockTimeout - refreshabilityTimeout is
+	// the witness class of the known defect "refresh monitor starts its clock when Lock returns
+	// although the lock file carries the time at which the acquisition started": violations
+	// that involve such a hold get their own key.
+	margin := staleLockTimeout - lockerInst.refreshabilityTimeout
+	keys := map[string]int{}
+	// hiddenByLag: a listing made by process b while acquiring (between its acq-call and the
+	// start of hold hb) fell into the listing-lag window right after a refresh Save of process a
+	hiddenByLag := func(a int, hb *c12HoldIv) bool {
+		if run.Sc.Lag <= 0 {
+			return false
+		}
+		var saves []time.Time
+		for _, e := range log {
+			if e.Kind == kit.OpSave && e.Proc == a && e.Role == "refresh" && e.Gated && e.Err == "" && e.H.Type == backend.LockFile {
+				saves = append(saves, e.At)
+			}
+			if e.Kind == kit.OpList && e.Proc == hb.Proc && e.Gated && e.H.Type == backend.LockFile && e.Seq > hb.CallSeq && e.Seq < hb.Start {
+				for _, ts := range saves {
+					if !e.At.Before(ts) && e.At.Before(ts.Add(run.Sc.Lag)) {
+						return true
+					}
+				}
+			}
+		}
+		return false
+	}
+	key := func(generic string, a, b *c12HoldIv) string {
+		k := generic
+		switch {
+		case a != nil && b != nil && (hiddenByLag(a.Proc, b) || hiddenByLag(b.Proc, a)):
+			k = c12KnownRefreshLag
+		case (a != nil && a.AcqAge > margin) || (b != nil && b.AcqAge > margin):
+			k = c12KnownSlowAcq
+		}
+		keys[k]++
+		return k
+	}
+	// O2 (pass 2)
+	for _, e := range log {
+		if e.Kind != kit.OpRemove || !e.Gated || e.Err != "" || e.H.Type != backend.LockFile {
+			continue
+		}
+		q, known := owner[e.H.Name]
+		if !known || q == e.Proc { // fabricated by the harness before the run / own file
+			if !known {
+				st.staleRemoved++
+			}
+			continue
+		}
+		if h := holding(q, e.Seq); h != nil {
+			viol = append(viol, [2]string{key("live-lock-file-removed-by-other-process", h, nil),
+				fmt.Sprintf("process %d removed lock file %s of process %d at event %d while that process holds a lock (events [%d,%s], lock file was %v old when the acquisition completed)", e.Proc, e.H.Name[:10], q, e.Seq, h.Start, c12End(h.End), h.AcqAge)})
+		} else {
+			st.staleRemoved++
+		}
+	}
 	// O1
 	for i := 0; i < len(holds); i++ {
 		for j := i + 1; j < len(holds); j++ {
-			a, b := holds[i], holds[j]
+			a, b := &holds[i], &holds[j]
 			if a.Proc == b.Proc || !(a.Start < b.End && b.Start < a.End) {
 				continue
 			}
@@ -679,16 +889,24 @@ func c12Judge(run *c12Run, st *c12Stats) (viol [][2]string, unknown bool) {
 				st.sharedOverlaps++
 				continue
 			}
-			viol = append(viol, [2]string{"conflicting-locks-held",
-				fmt.Sprintf("process %d holds %s lock during events [%d,%s] while process %d holds %s lock during [%d,%s]",
-					a.Proc, c12Mode(a.Excl), a.Start, c12End(a.End), b.Proc, c12Mode(b.Excl), b.Start, c12End(b.End))})
+			viol = append(viol, [2]string{key("conflicting-locks-held", a, b),
+				fmt.Sprintf("process %d holds %s lock during events [%d,%s] (lock file %v old at acquisition) while process %d holds %s lock during [%d,%s] (%v old)",
+					a.Proc, c12Mode(a.Excl), a.Start, c12End(a.End), a.AcqAge, b.Proc, c12Mode(b.Excl), b.Start, c12End(b.End), b.AcqAge)})
 		}
 	}
 	// O3
 	if len(hist) > 0 {
 		switch porcupine.CheckOperationsTimeout(c12Model, hist, 20*time.Second) {
 		case porcupine.Illegal:
-			viol = append(viol, [2]string{"lock-history-not-linearizable", fmt.Sprintf("acquire/release history of %d operations by %d processes is not linearizable w.r.t. the readers-writer lock model", len(hist), np)})
+			k := "lock-history-not-linearizable"
+			if len(keys) == 1 { // same root cause as the (only) class of interval violations of this run
+				for kk := range keys {
+					if kk == c12KnownSlowAcq || kk == c12KnownRefreshLag {
+						k = kk
+					}
+				}
+			}
+			viol = append(viol, [2]string{k, fmt.Sprintf("acquire/release history of %d operations by %d processes is not linearizable w.r.t. the readers-writer lock model", len(hist), np)})
 		case porcupine.Unknown:
 			unknown = true
 		}
@@ -700,6 +918,13 @@ func c12Judge(run *c12Run, st *c12Stats) (viol [][2]string, unknown bool) {
 	}
 	return viol, unknown
 }
+
+// keys of the known findings (see /verif/known_findings.txt, fixes/C12-*.diff and the regression
+// cases c12RegressionSlowAcq / c12RegressionRefreshLag)
+const (
+	c12KnownSlowAcq    = "lock-not-refreshed-after-slow-acquisition"
+	c12KnownRefreshLag = "refresh-replacement-hidden-by-listing-lag"
+)
 
 func c12End(e int) string {
 	if e == c12Inf {
@@ -781,6 +1006,9 @@ func c12Evaluate(rec *kit.Rec, run *c12Run, tot *c12Stats) {
 		rec.Violation("backend-monitor", m, c12Replay{Scenario: run.Sc, Labels: labels})
 	}
 	nontrivial := st.switches >= int64(len(run.Sc.Scripts)) && st.acqOK+st.acqConflict > 0
+	if run.Sc.Free {
+		labels = []string{fmt.Sprintf("free-running:%d-events", len(run.Log))}
+	}
 	rec.Case(run.Sc.Name+"|"+strings.Join(labels, " "), nontrivial)
 	if rec.WantSample() && nontrivial && st.acqOK > 0 {
 		rec.Sample(map[string]any{"scenario": run.Sc.String(), "schedule": strings.Join(labels, " "), "virtual_time": run.Virtual.String(), "log": c12LogText(run.Log, 60)})
@@ -795,6 +1023,8 @@ func c12Evaluate(rec *kit.Rec, run *c12Run, tot *c12Stats) {
 	tot.ops += st.ops
 	tot.tChoices += st.tChoices
 	tot.ctxdone += st.ctxdone
+	tot.freezes += st.freezes
+	rec.Max("max_lock_age_at_acquisition_seconds", int64(st.maxAcqAge/time.Second))
 	rec.Max("max_virtual_minutes_in_one_schedule", int64(run.Virtual/time.Minute))
 	rec.Max("max_decisions_in_one_schedule", int64(len(run.Trace)))
 }
@@ -810,16 +1040,89 @@ func (st *c12Stats) report(rec *kit.Rec) {
 	rec.Count("stale_lock_files_removed", st.staleRemoved)
 	rec.Count("time_advance_choices", st.tChoices)
 	rec.Count("lock_contexts_cancelled", st.ctxdone)
+	rec.Count("forced_refreshes_observed", st.freezes)
 }
 
 // ---------------------------------------------------------------------------------------------
 // exploration drivers
 
+// c12RegressionRefreshLag is the deterministic witness of the known finding
+// "refresh-replacement-hidden-by-listing-lag": lockHandle.refresh saves the replacement lock
+// file and removes the old one right away. With a listing delay (150 ms here, below
+// waitBeforeLockCheck) a List issued just after the refresh shows neither file. Process 2's
+// first check is released right after process 1's refresh at the 5-minute tick; its Save is
+// stalled 3 min and its second check 2 min (each below the stall budget), so that the second
+// check lands right after the refresh at the 10-minute tick: both checks see an empty lock
+// directory and process 2 holds an exclusive lock together with process 1.
+// The schedule is given by labels; as soon as the expected label is not among the options (e.g.
+// with a corrected refresh) the first option is taken, so the case degrades to an ordinary
+// schedule instead of failing.
+func c12RegressionRefreshLag() (c12Scenario, c12Chooser) {
+	sc := c12Scenario{
+		Name: "regression-refresh-lag", Lag: 150 * time.Millisecond,
+		Scripts: [][]c12Step{
+			c12Seq(c12Lock(true, 1), c12Hold(11*time.Minute), c12Do("rel")),
+			c12Cat(c12Seq(c12Sleep(5*time.Minute)), c12AR(true)),
+		},
+	}
+	want := strings.Fields("p1 p1 T p1 T T p1:refresh p1:refresh p2 T p2 T T p1:refresh p1:refresh p2")
+	off := false
+	ch := func(step int, labels []string) int {
+		if !off && step < len(want) {
+			for i, l := range labels {
+				if l == want[step] {
+					return i
+				}
+			}
+		}
+		off = true
+		return 0
+	}
+	return sc, ch
+}
+
+// c12RegressionSlowAcq is the deterministic witness of the known finding
+// "lock-not-refreshed-after-slow-acquisition": process 1 acquires a shared lock next to two other
+// shared locks; every backend operation of its acquisition is stalled for the stall budget
+// (3 min, well below the staleness margin), so Lock returns 21 min after the timestamp that was
+// written into its lock file. refreshLocks skips the regular refreshes (lock "too old, wait for
+// the monitor"), monitorLockRefresh counts 22.5 min from the return of Lock — the lock file turns
+// 30 min old in between, process 2's `unlock` removes it as stale and process 2 acquires an
+// exclusive lock while process 1 still holds its lock with a live context.
+func c12RegressionSlowAcq() (c12Scenario, c12Chooser) {
+	sc := c12Scenario{
+		Name: "regression-slow-acquisition",
+		Fab:  []c12Fab{{Age: 0}, {Age: 0}},
+		Scripts: [][]c12Step{
+			c12Seq(c12Lock(false, 1), c12Hold(40*time.Minute), c12Do("rel")),
+			c12Seq(c12Sleep(30*time.Minute+30*time.Second), c12Do("unlock"), c12Acq(true), c12Do("work"), c12Do("rel")),
+		},
+	}
+	// stall exactly the operations of process 1's main thread; everything else runs at once
+	ch := func(step int, labels []string) int {
+		p1, tIdx := false, -1
+		for i, l := range labels {
+			if l == "p1" {
+				p1 = true
+			}
+			if l == "T" {
+				tIdx = i
+			}
+		}
+		if p1 && tIdx >= 0 {
+			return tIdx
+		}
+		return 0
+	}
+	return sc, ch
+}
+
 // c12DFS explores all schedules of sc below the root prefix (indices). It returns the number of
 // schedules executed and whether the exploration was complete (not cut by limit).
-func c12DFS(t *testing.T, rec *kit.Rec, base *c12Base, sc c12Scenario, root []int, limit int, tot *c12Stats) (n int, complete bool, feasible bool) {
+func c12DFS(t *testing.T, rec *kit.Rec, base [2]*c12Base, sc c12Scenario, root []int, limit int, tot *c12Stats) (n int, complete bool, feasible bool) {
 	prefix := append([]int(nil), root...)
 	var prevN []int // option counts of the previous run along the current prefix (determinism check)
+	var prevRun *c12Run
 	for {
 		cur := prefix
 		run := c12Execute(t, base, sc, func(step int, labels []string) int {
@@ -838,11 +1141,15 @@ func c12DFS(t *testing.T, rec *kit.Rec, base *c12Base, sc c12Scenario, root []in
 		for i := 0; i < len(prevN) && i < len(run.Trace) && i < len(cur)-1; i++ {
 			if prevN[i] != run.Trace[i].N {
 				rec.Inconclusive("scenario %s: schedule prefix %v is not deterministic (decision %d had %d options, now %d)", sc.Name, cur, i, prevN[i], run.Trace[i].N)
+				if os.Getenv("C12_DEBUG") != "" && prevRun != nil {
+					fmt.Fprintf(os.Stderr, "NONDET previous: %s\n%s\nNONDET now: %s\n%s\n", c12Labels(prevRun.Trace), c12LogText(prevRun.Log, 300), c12Labels(run.Trace), c12LogText(run.Log, 300))
+				}
 				return n, false, true
 			}
 		}
 		c12Evaluate(rec, run, tot)
 		n++
+		prevRun = run
 		prevN = prevN[:0]
 		for _, c := range run.Trace {
 			prevN = append(prevN, c.N)
@@ -868,7 +1175,7 @@ func c12DFS(t *testing.T, rec *kit.Rec, base *c12Base, sc c12Scenario, root []in
 	}
 }
 
-func c12Walk(t *testing.T, rec *kit.Rec, base *c12Base, sc c12Scenario, rng *kit.RNG, tot *c12Stats) {
+func c12Walk(t *testing.T, rec *kit.Rec, base [2]*c12Base, sc c12Scenario, rng *kit.RNG, tot *c12Stats) {
 	run := c12Execute(t, base, sc, func(step int, labels []string) int { return rng.Intn(len(labels)) })
 	c12Evaluate(rec, run, tot)
 }
@@ -877,7 +1184,7 @@ func TestVerifC12(t *testing.T) {
 	rec := kit.Start(t, "C12", "locks")
 	defer rec.Finish()
 	env := rec.Env
-	base := c12NewBase(t)
+	base := [2]*c12Base{c12NewBase(t, 1), c12NewBase(t, 2)}
 	var tot c12Stats
 	defer func() { tot.report(rec) }()
 
@@ -899,15 +1206,30 @@ func TestVerifC12(t *testing.T) {
 		return
 	}
 
+	only := os.Getenv("C12_ONLY") // development aid: restrict to scenarios whose name contains this
+
+	// (0) deterministic regression cases of the known findings (always run, shard 0)
+	if env.Mine(0) && only == "" {
+		for _, f := range []func() (c12Scenario, c12Chooser){c12RegressionSlowAcq, c12RegressionRefreshLag} {
+			sc, ch := f()
+			run := c12Execute(t, base, sc, ch)
+			c12Evaluate(rec, run, &tot)
+			rec.Count("regression_cases", 1)
+		}
+	}
+
 	// (1) systematic: DFS below every root prefix of depth 2 (width ≤ 4); jobs are spread over shards
 	job := 0
 	scs := c12Exhaustive(env.Thorough())
-	limit := env.Pick(400, 0) // per job; 0 = unlimited
-	for _, sc := range scs {
+	limit := env.Pick(400, 8000) // schedules per DFS subtree job (0 = unlimited)
+	for si, sc := range scs {
+		if only != "" && !strings.Contains(sc.Name, only) {
+			continue
+		}
 		for a := 0; a < 4; a++ {
 			for b := 0; b < 4; b++ {
 				job++
-				if !env.Mine(job) {
+				if !env.Mine(a*4 + b + si*5) {
 					continue
 				}
 				n, complete, feasible := c12DFS(t, rec, base, sc, []int{a, b}, limit, &tot)
@@ -926,16 +1248,27 @@ func TestVerifC12(t *testing.T) {
 	rec.Count("systematic_scenarios", int64(len(scs)))
 
 	// (2) PRNG scenarios × PRNG schedule walks
-	nsc := env.Pick(150, 1500)
-	walks := env.Pick(8, 20)
+	nsc := env.Pick(240, 2400)
+	walks := env.Pick(8, 16)
 	for i := 0; i < nsc; i++ {
 		if !env.Mine(i) {
 			continue
 		}
 		sc := c12Random(rec.RNG("scenario", i), i)
+		if only != "" && !strings.Contains(sc.Name, only) {
+			continue
+		}
 		for w := 0; w < walks; w++ {
 			c12Walk(t, rec, base, sc, rec.RNG("walk", i, w), &tot)
 			rec.Count("schedules_random", 1)
+		}
+		// the same scenario free-running (real parallelism for the race detector)
+		fsc := sc
+		fsc.Free = true
+		fsc.Name += "-free"
+		for w := 0; w < 2; w++ {
+			c12Walk(t, rec, base, fsc, rec.RNG("free", i, w), &tot)
+			rec.Count("runs_free_running", 1)
 		}
 	}
 }
